@@ -167,5 +167,5 @@ func run(c Case, o *lib.Obs) error {
 }
 
 func TestC03(t *testing.T) {
-	lib.Check(t, spec, lib.Scale(16, 1600), gen, run)
+	lib.Check(t, spec, lib.Scale(16, 640), gen, run)
 }
